@@ -30,6 +30,7 @@ inductive IState where
   | ao (s : AO) | chaikinOsc (s : ChaikinOsc) | cciInd (s : CCIInd) | woodies (s : Woodies) | coppock (s : Coppock)
   | dpo (s : DPO) | eom (s : EoM) | efi (s : EFI) | hull (s : HullInd) | kaufman (s : Kaufman) | momIdx (s : MomIdx)
   | trix (s : Trix) | klinger (s : Klinger) | kst (s : KST) | rvi (s : RVI) | pivot (s : PivotRS) | cks (s : CKS) | adx (s : ADX)
+  | tsind (s : TSInd) | fisher (s : Fisher)
 
 /-- expectation for one signal slot -/
 inductive SigExp where
@@ -181,6 +182,12 @@ def iNew (P : Nat) (name : String) (cfg : Toks) (k : Candle Rat) : Option (Res I
   | "AverageDirectionalIndex" => do
     let (a, r) ← takeMA cfg; let (b, r) ← takeMA r; let (p1, r) ← takeI r; let (z, _) ← takeF r
     pure ((ADX.init P a b p1 z k).map .adx)
+  | "TrendStrengthIndex" => do
+    let (n, r) ← takeI cfg; let (z, r) ← takeF r; let (ro, r) ← takeI r; let (src, _) ← takeSrc r
+    pure ((TSInd.init P n z ro src (srcF k src)).map .tsind)
+  | "FisherTransform" => do
+    let (n, r) ← takeI cfg; let (z, r) ← takeF r; let (m, r) ← takeMA r; let (src, _) ← takeSrc r
+    pure ((Fisher.init P n z m src (rne53 (999 / 1000)) (srcF k src)).map .fisher)
   | _ => none
 
 def IState.winLen : IState → Nat
@@ -216,6 +223,8 @@ def IState.winLen : IState → Nat
   | .pivot _ => 0
   | .cks s => s.ma.winLen + s.highest1.window.size + s.highest2.window.size
   | .adx s => s.tr_ma.winLen + s.plus_di.winLen + s.ma2.winLen + s.window.size
+  | .tsind s => 2 * s.period
+  | .fisher s => s.period1 + s.ma1.winLen
 
 structure StepOut where
   vals : List VExp
@@ -377,6 +386,22 @@ def iStep (P : Nat) (ctx : Ctx) (st : IState) (k : Candle Rat) (rv : List Rat) (
     let (v, s1, trZero) ← s.vals k (some rv)
     let (a1, arg) := s1.sigs rv
     pure { vals := v, sigs := [.exact a1, .prop arg (8 * eps * (ratAbs arg + 1))], st := .adx s1, borderline := trZero && !flat }
+  | .tsind s => do
+    let (v, s1) ← s.vals (srcF k s.source)
+    let (sg, s2) ← s1.sigs P rv
+    pure { vals := v, sigs := exacts sg, st := .tsind s2 }
+  | .fisher s => do
+    let prev := s.prev_value
+    let (v, s1) ← s.vals (srcF k s.source) (some rv)
+    let (sg, s2) := s1.sigs prev rv
+    -- `x / zone * flag`: a silent slot is ±0.0, i.e. Buy(0) / Sell(0) by the sign of x
+    -- the quotient overflows for denormal zones: ±inf·0 is NaN (no signal), ±inf·1 saturates
+    let huge : Rat := ((2 ^ 1023 : Nat) : Rat)
+    let slot (p : Bool × Rat) : SigExp :=
+      if ratAbs p.2 ≥ huge then (if p.1 then .prop p.2 (8 * eps * ratAbs p.2) else if ratAbs p.2 ≥ 2 * huge then .exact .none else .exempt)
+      else if p.1 then .prop p.2 (8 * eps * ratAbs p.2)
+      else if 0 < p.2 then .exact (.buy 0) else if p.2 < 0 then .exact (.sell 0) else .prop 0 0
+    pure { vals := v, sigs := sg.map slot, st := .fisher s2 }
   | .sar s =>
     let tol := 64 * eps * (ratAbs s.sar + ratAbs k.low + ratAbs k.high)
     -- a flip decision within rounding of the (computed) SAR; exact equality happens when the SAR is a copied candle
@@ -428,6 +453,24 @@ def cmpV (c : Ctx) (flat : Bool) (e : VExp) (tok : String) (rv : List Rat) : Ver
       | none => .exempt
     else if guards.any (fun g => ratAbs g ≤ aD) then .exempt
     else cmpOut c (.quot num aN den aD false) tok
+  | .sqrtQuot num den κn κd =>
+    match parseRat tok with
+    | none =>
+      -- sqrt of a negative residue / division by a zero residue: only where the exact radicand vanishes up to the allowance
+      if den ≤ c.allow (κd * c.M * c.M) then .exempt else .bad s!"non-finite value {tok} with radicand {ratStr den}"
+    | some y =>
+      let aN := c.allow (κn * c.M)
+      let aD := c.allow (κd * c.M * c.M)
+      if den ≤ 2 * aD then .exempt
+      else
+        let nl := ratMax (ratAbs num - aN) 0
+        let nh := ratAbs num + aN
+        let signOk := ratAbs num ≤ aN || (decide (0 < num) == decide (0 < y) && y != 0)
+        -- |y|·sqrt(den) = |num| up to the allowances: compared on the squares
+        let y2 := y * y
+        if !signOk then .bad s!"sign of {ratStr y} differs from the numerator {ratStr num}"
+        else if nl * nl ≤ y2 * (den + aD) * (1 + 64 * c.eps) && y2 * (den - aD) * (1 - 64 * c.eps) ≤ nh * nh then .ok
+        else .bad s!"value² · q = {ratStr (y2 * den)} differs from p² = {ratStr (num * num)}"
   | .band mid κm sign k var =>
     match parseRat tok with
     | none => .bad s!"non-finite band {tok}"
